@@ -75,14 +75,16 @@ def storedCfg (t : List Ev) : Option Nat :=
 def holdsC13 (i : Info) (t : List Ev) : Bool :=
   !i.hung &&
   -- every Reload() on a running server fetches the callback's configuration, also when it has to wait for another
-  -- reload: in a history without stops, cancellations and requests in which every reload returned with the state
-  -- Running, there is one callback per Reload() call (plus the one of the boot)
-  ((t.any fun e => match e with | .stopCall | .cancel | .ret _ _ | .req _ _ _ => true | _ => false)
-    || !(t.all fun e => match e with | .reloadRet _ st => st == "Running" | _ => true)
-    || (t.filter fun e => match e with | .reloadCall _ => true | _ => false).length
-         != (t.filter fun e => match e with | .reloadRet _ _ => true | _ => false).length
-    || (t.filter fun e => match e with | .cb _ _ => true | _ => false).length
-         == 1 + (t.filter fun e => match e with | .reloadCall _ => true | _ => false).length) &&
+  -- reload: in the part of a history before the first stop or cancellation, without requests, in which every reload returned with the state
+  -- Running (or Reloading: another reload was under way when the state was read), there is one callback per Reload()
+  -- call (plus the one of the boot)
+  (let p := t.takeWhile fun e => match e with | .stopCall | .cancel | .ret _ _ => false | _ => true
+   (p.any fun e => match e with | .req _ _ _ => true | _ => false)
+    || !(p.all fun e => match e with | .reloadRet _ st => st == "Running" || st == "Reloading" | _ => true)
+    || (p.filter fun e => match e with | .reloadCall _ => true | _ => false).length
+         != (p.filter fun e => match e with | .reloadRet _ _ => true | _ => false).length
+    || (p.filter fun e => match e with | .cb _ _ => true | _ => false).length
+         == 1 + (p.filter fun e => match e with | .reloadCall _ => true | _ => false).length) &&
   (List.range (t.filter fun e => match e with | .reloadCall _ => true | _ => false).length).all fun k =>
     match window t k with
     | none => true
